@@ -63,7 +63,7 @@ template <class T> struct Rounding<T, true> {
 template <class T, size_t M, size_t K, size_t N>
 void mm(Ctx& c) {
     Rng g = c.rng();
-    Tensor<T, M, K> A; Tensor<T, K, N> B;
+    VP_OPERAND((Tensor<T, M, K>), A); VP_OPERAND((Tensor<T, K, N>), B);
     T ref[M * N];
     for (int draw = 0; draw < 2; ++draw) {
         fill_small(A.data(), M * K, g); fill_small(B.data(), K * N, g);
@@ -94,7 +94,7 @@ void mm(Ctx& c) {
 template <class T, size_t M, size_t K, size_t N>
 void mmacc(Ctx& c) {
     Rng g = c.rng(1);
-    Tensor<T, M, K> A; Tensor<T, K, N> B;
+    VP_OPERAND((Tensor<T, M, K>), A); VP_OPERAND((Tensor<T, K, N>), B);
     T ref[M * N];
     for (int draw = 0; draw < 2; ++draw) {
         fill_small(A.data(), M * K, g); fill_small(B.data(), K * N, g);
@@ -115,7 +115,7 @@ void mmacc(Ctx& c) {
 template <class T, size_t M, size_t K>
 void mv(Ctx& c) {
     Rng g = c.rng();
-    Tensor<T, M, K> A; Tensor<T, K> b; T ref[M];
+    VP_OPERAND((Tensor<T, M, K>), A); VP_OPERAND((Tensor<T, K>), b); T ref[M];
     for (int draw = 0; draw < 2; ++draw) {
         fill_small(A.data(), M * K, g); fill_small(b.data(), K, g);
         ref_matmul(A.data(), b.data(), ref, M, K, 1);
@@ -129,7 +129,7 @@ void mv(Ctx& c) {
 template <class T, size_t K, size_t N>
 void vm(Ctx& c) {
     Rng g = c.rng();
-    Tensor<T, K> a; Tensor<T, K, N> B; T ref[N];
+    VP_OPERAND((Tensor<T, K>), a); VP_OPERAND((Tensor<T, K, N>), B); T ref[N];
     for (int draw = 0; draw < 2; ++draw) {
         fill_small(a.data(), K, g); fill_small(B.data(), K * N, g);
         ref_matmul(a.data(), B.data(), ref, 1, K, N);
@@ -145,7 +145,7 @@ void vm(Ctx& c) {
 template <class T, size_t M, size_t K>
 void mvacc(Ctx& c) {
     Rng g = c.rng(2);
-    Tensor<T, M, K> A; Tensor<T, K> b; T ref[M];
+    VP_OPERAND((Tensor<T, M, K>), A); VP_OPERAND((Tensor<T, K>), b); T ref[M];
     for (int draw = 0; draw < 2; ++draw) {
         fill_small(A.data(), M * K, g); fill_small(b.data(), K, g);
         ref_matmul(A.data(), b.data(), ref, M, K, 1);
@@ -159,7 +159,7 @@ void mvacc(Ctx& c) {
 template <class T, size_t K, size_t N>
 void vmlazy(Ctx& c) {
     Rng g = c.rng(3);
-    Tensor<T, K> a; Tensor<T, K, N> B; T ref[N];
+    VP_OPERAND((Tensor<T, K>), a); VP_OPERAND((Tensor<T, K, N>), B); T ref[N];
     for (int draw = 0; draw < 2; ++draw) {
         fill_small(a.data(), K, g); fill_small(B.data(), K * N, g);
         ref_matmul(a.data(), B.data(), ref, 1, K, N);
@@ -172,7 +172,7 @@ void vmlazy(Ctx& c) {
 template <class T, size_t M, size_t N>
 void outer_case(Ctx& c) {
     Rng g = c.rng();
-    Tensor<T, M> a; Tensor<T, N> b; T ref[M * N];
+    VP_OPERAND((Tensor<T, M>), a); VP_OPERAND((Tensor<T, N>), b); T ref[M * N];
     for (int draw = 0; draw < 2; ++draw) {
         fill_small_nz(a.data(), M, g); fill_small_nz(b.data(), N, g);
         ref_matmul(a.data(), b.data(), ref, M, 1, N);
@@ -185,7 +185,7 @@ void outer_case(Ctx& c) {
 template <class T, size_t N>
 void inner_case(Ctx& c) {
     Rng g = c.rng();
-    Tensor<T, N> a, b; T ref[1];
+    VP_OPERAND((Tensor<T, N>), a); VP_OPERAND((Tensor<T, N>), b); T ref[1];
     for (int draw = 0; draw < 3; ++draw) {
         fill_small(a.data(), N, g); fill_small(b.data(), N, g);
         ref_matmul(a.data(), b.data(), ref, 1, N, 1);
